@@ -11,6 +11,7 @@ import MetapypeModel.Model.Prune
 import MetapypeModel.Model.Expand
 import MetapypeModel.Model.Normalize
 import MetapypeModel.Model.Evaluate
+import MetapypeModel.Model.Json
 import MetapypeModel.Gen.Rules
 import MetapypeModel.Gen.Facts
 /-
@@ -249,6 +250,11 @@ def handle (j : Json) : Json :=
       let t := getTree (fld j "tree")
       let pn := optStr (fld j "parent")
       .arr ((evalTree pn t []).map (fun wp => Json.arr #[.str wp.1, pathJson wp.2])).toArray
+  | some "json" =>
+      let t := getTree (fld j "tree")
+      let os (x : Option Tree) : Json := match x with | some t => treeJson t | none => .null
+      Json.mkObj [("current", os (fromJ (serialize t))), ("legacy", os (legacyFromJ (legacySerialize t))),
+                  ("upgraded", os (fromJ (upgrade (legacySerialize t))))]
   | some "isequal" =>
       Json.bool (isEqual (getTree (fld j "a")) (getTree (fld j "b")))
   | some "tables" =>
